@@ -342,18 +342,19 @@ func vfC12Config(dir string, c *vfC12Case) *config.Config {
 }
 
 type vfC12Obs struct {
-	Rcode     int
-	NoReply   bool
-	Replies   int
-	Packets   int
-	Elapsed   time.Duration
-	EDE       string
-	Sig, DS   int64
-	NSEC3     int64
-	Internal  int64 // internal sub-queries started (alias chase, DNAME target, NS address lookups)
-	Aborted   bool  // the harness cut the request off at vfC12InternalCap sub-queries
-	Canon     string
-	OverLimit bool
+	Rcode      int
+	NoReply    bool
+	Replies    int
+	Packets    int
+	Elapsed    time.Duration
+	EDE        string
+	Sig, DS    int64
+	NSEC3      int64
+	Internal   int64 // internal sub-queries started (alias chase, DNAME target, NS address lookups)
+	Aborted    bool  // the harness cut the request off at vfC12InternalCap sub-queries
+	Canon      string
+	OverLimit  bool
+	LocalLimit bool // the failure is this request tree's own (budget or per-server attempt limit): nobody else's business
 }
 
 func vfC12Run(t *testing.T, dir string, c *vfC12Case, mode string) (obs []vfC12Obs, trace []string) {
@@ -400,6 +401,7 @@ func vfC12Run(t *testing.T, dir string, c *vfC12Case, mode string) (obs []vfC12O
 					}
 				}
 				o.OverLimit = strings.Contains(o.EDE, "budget exceeded")
+				o.LocalLimit = o.OverLimit || strings.Contains(o.EDE, "attempt limit exceeded")
 				cr := vfCanon(rep)
 				cr.OPT = "" // the EDE text names whichever server was tried last; which one is a scheduling matter
 				o.Canon = cr.String()
@@ -481,6 +483,10 @@ func TestVerifC12Budget(t *testing.T) {
 				}
 			} else if o.OverLimit {
 				bad("question %d (%s): mode %s must only count, yet the reply says %q", i, st.Shape, c.Mode, o.EDE)
+			}
+			// a failure that is the request tree's own is not cached for other clients, in any mode
+			if o.LocalLimit && !o.OverLimit && c.SecondAsk && i%2 == 0 && i+1 < len(obs) && obs[i+1].Packets == 0 && obs[i+1].Rcode == dns.RcodeServerFailure && obs[i+1].Internal == 0 {
+				bad("question %d (%s): a SERVFAIL caused by this request's own attempt limit (%q) was served to the next client without any new work", i, st.Shape, o.EDE)
 			}
 			vfstat.Class(U, "shape:"+st.Shape)
 		}
